@@ -414,29 +414,35 @@ def defDirs : Definition → List Directive
   | .op _ _ _ dirs _ => dirs
   | .frag _ _ _ _ dirs _ _ => dirs
 
+/-- The argument lists at one selection: the field's own (when the field is defined) and those of
+    its directives. -/
+def occArgSites (S : Schema) (o : Occ) : List ArgSite :=
+  (match o with
+   | .field (some p) _ n _ args _ _ =>
+     (match fieldDef? S p n with
+      | some d => [{ defs := d.args, args := args }]
+      | none => [])
+   | _ => []) ++ dirArgSites S (occDirs o)
+
 /-- Every argument list of the document whose field / directive is defined. -/
 def argSites (S : Schema) (D : Document) : List ArgSite :=
-  ((selOccs S D).flatMap fun o =>
-    (match o with
-     | .field (some p) _ n _ args _ _ =>
-       (match fieldDef? S p n with
-        | some d => [{ defs := d.args, args := args }]
-        | none => [])
-     | _ => []) ++ dirArgSites S (occDirs o))
-  ++ D.flatMap (fun d => dirArgSites S (defDirs d))
+  (selOccs S D).flatMap (occArgSites S) ++ D.flatMap (fun d => dirArgSites S (defDirs d))
+
+def argsKnownAt (s : ArgSite) : Bool := s.args.all fun a => (findInput s.defs a.name).isSome
+
+def argsUniqueAt (s : ArgSite) : Bool := nodup (s.args.map (·.name))
+
+def argsRequiredAt (s : ArgSite) : Bool :=
+  s.defs.all fun d => !(d.type.isNonNull && d.dflt = .none) || s.args.any (fun a => a.name = d.name)
 
 /-- §5.4.1 Argument Names. -/
-def argumentsKnown (S : Schema) (D : Document) : Bool :=
-  (argSites S D).all fun s => s.args.all fun a => (findInput s.defs a.name).isSome
+def argumentsKnown (S : Schema) (D : Document) : Bool := (argSites S D).all argsKnownAt
 
 /-- §5.4.2 Argument Uniqueness. -/
-def argumentsUnique (S : Schema) (D : Document) : Bool :=
-  (argSites S D).all fun s => nodup (s.args.map (·.name))
+def argumentsUnique (S : Schema) (D : Document) : Bool := (argSites S D).all argsUniqueAt
 
 /-- §5.4.2.1 Required Arguments (the null-literal half is §5.6.1's). -/
-def argumentsRequired (S : Schema) (D : Document) : Bool :=
-  (argSites S D).all fun s => s.defs.all fun d =>
-    !(d.type.isNonNull && d.dflt = .none) || s.args.any (fun a => a.name = d.name)
+def argumentsRequired (S : Schema) (D : Document) : Bool := (argSites S D).all argsRequiredAt
 
 /-! ## §5.5 Fragments -/
 
